@@ -508,7 +508,11 @@ def rule_r6(ctx):
     ctx.require(len(subs) == 1, "clone_attr: lookup in the substitution map not found")
     r = subs[0].targets[0].id
     blk = getattr(subs[0], "_parent", None)
-    ctors = [c for st in getattr(blk, "body", []) for c in ast.walk(st) if isinstance(c, ast.Call)
+    # the substitution branch: what follows the lookup in its block (the lookup may sit under `if name in map:` or after the
+    # guard clause `if name not in map: return None`)
+    stmts = next((b for b in (getattr(blk, fld, None) for fld in ("body", "orelse", "finalbody")) if isinstance(b, list) and subs[0] in b), [])
+    after = stmts[stmts.index(subs[0]) + 1 :] if subs[0] in stmts else []
+    ctors = [c for st in after for c in ast.walk(st) if isinstance(c, ast.Call)
              and (dotted_of(c.func) or "").split(".")[-1] in ("Attr", "RefAttr")]
     ctx.require(len(ctors) >= 2, "clone_attr: attribute constructions in the substitution branch not found")
     for c in ctors:
